@@ -693,7 +693,7 @@ func checkB11(c *Ctx, pr *prioRoles) {
 				zero, unreg := false, false
 				for _, e := range InstrDomEdges(call) {
 					iff := e.From.Instrs[len(e.From.Instrs)-1].(*ssa.If)
-					if cm := p.NormCmp(iff.Cond, e.Succ == 0); cm != nil && cm.Op == token.EQL {
+					if cm := p.NormCmp(iff.Cond, e.Succ == 0); cm != nil && cm.Op == token.EQL && cm.LC == 0 && cm.RC == 0 {
 						l, r := deepStrip(cm.L), deepStrip(cm.R)
 						// value of the same range element == 0
 						sameElem := func(x *Sym) bool {
